@@ -166,7 +166,8 @@ def listPairs (c : Nat) : Nat → List (Rat × Bool) → List (Int × Rat)
 
 def wentryPairs : WEntry → List (Int × Rat)
   | .list c ws => listPairs c 0 ws
-  | .range c1 c2 w => (List.range (c2 + 1 - c1).toNat).map (fun (i : Nat) => (c1 + (i : Int), w.1))
+  | .range c1 c2 w =>      -- CIDs are 0..65535 (ISO 32000-1 9.7.4): the part of the range outside is void
+    (List.range (min c2 65535 + 1 - max c1 0).toNat).map (fun (i : Nat) => (max c1 0 + (i : Int), w.1))
 
 /-- (cid, width) pairs in definition order. -/
 def specWidthPairs (es : List WEntry) : List (Int × Rat) := es.flatMap wentryPairs
@@ -195,7 +196,9 @@ def list2Pairs (c : Nat) : Nat → List ((Rat × Bool) × (Rat × Bool) × (Rat 
 
 def w2entryPairs : W2Entry → List (Int × (Rat × Rat × Rat))
   | .list c ws => list2Pairs c 0 ws
-  | .range c1 c2 w => (List.range (c2 + 1 - c1).toNat).map (fun (i : Nat) => (c1 + (i : Int), (w.1.1, w.2.1.1, w.2.2.1)))
+  | .range c1 c2 w =>
+    (List.range (min c2 65535 + 1 - max c1 0).toNat).map
+      (fun (i : Nat) => (max c1 0 + (i : Int), (w.1.1, w.2.1.1, w.2.2.1)))
 
 def specWidth2Pairs (es : List W2Entry) : List (Int × (Rat × Rat × Rat)) := es.flatMap w2entryPairs
 
